@@ -320,12 +320,15 @@ CLAIMED = {
              "through any depth of includes (own contract at the recursive call), NULL without an exception when "
              "nothing is found, RuntimeError beyond depth 100. make_included_tuples builds the two include tuples of a "
              "module: member j of each (every j, proved for an arbitrary index) is the ffi / the lib attribute of the "
-             "module imported for the j-th name of the include list, in order; on failure both slots are NULL again.",
+             "module imported for the j-th name of the include list, in order; on failure both slots are NULL again. "
+             "One iteration of lib_build_and_cache_attr's delegation loop: lib.<name> found in included module i is that "
+             "module's cached attribute, or what building it in THAT lib gives, or (no lib) that ffi's integer "
+             "constant; the search moves on only if module i has none, and stops on an exception.",
         design_ref='DESIGN.md section 4 C34',
         note=COMMON_NOTE + "Known finding C34-enum-not-shared: compiled modules build their own ctype for an enum of an "
              "included FFI (structural obligation on the _CFFI_OP_ENUM branch fails; replayed on every run). Recorded, not "
              "specified: _realize_c_struct_or_union; search_in_struct_unions through a weaker restatement of its C25 "
-             "contract. Not under contract: lib_build_and_cache_attr's delegation loop, "
+             "contract. Not under contract: what surrounds lib_build_and_cache_attr's delegation loop, "
              "ffi_fetch_int_constant, the recompiler's emission of _CFFI_F_EXTERNAL, model.global_cache.",
         technique="contract-based deductive verification: exhaustive case contracts on the Python functions (pyvc), the C "
                   "lookup through include chains over a trace of recorded realizations (cvc), structural AST obligations",
